@@ -48,7 +48,7 @@ def flat_program(shape, src, out_default):
         defaults = {}
         for p in params:
             if p.startswith("e"):
-                if src[p] == "D":
+                if src[p] in ("D", "DBi"):
                     defaults[p] = ["dflt", p]
             elif p in out_default:
                 defaults[p] = ["dflt", p]
@@ -102,9 +102,9 @@ def place_bindings(prog, src, wrapper):
     w = next(s for s in p["nodes"] if s["id"] == wrapper)
     w_ins, _ = spec_io({**w, "rename_in": None, "rename_out": None})
     for e, kind in src.items():
-        if kind in ("Bi", "Bio") and e in w_ins:
+        if kind in ("Bi", "Bio", "DBi") and e in w_ins:
             w["inner"].setdefault("bind", {})[e] = ["bound-inner", e] if kind == "Bio" else ["bound", e]
-        if kind in ("Bo", "Bio") or (kind == "Bi" and e not in w_ins):
+        if kind in ("Bo", "Bio") or (kind in ("Bi", "DBi") and e not in w_ins):
             p.setdefault("bind", {})[e] = ["bound-outer", e] if kind == "Bio" else ["bound", e]
     return p, flat_bind
 
@@ -157,6 +157,9 @@ def compare(flat, nested, rn_in, rn_out):
     return out
 
 
+# ("DBi" = signature default everywhere AND a binding on the inner graph is deliberately NOT in the menu: the constructor
+#  rejects that nested form by design - tests/test_bind_defaults.py::test_bound_value_overrides_signature_default documents
+#  it as intended - so there is no nested graph to compare; a first version of this check reported it, a false alarm)
 SRC_MENU = ["P", "D", "Bi", "Bo", "Bio"]
 
 
@@ -201,7 +204,7 @@ def run_config(acc, shape, src, od, S, tier):
     w3 = wrap(w2, ["w2"], "w3")
     plans.append(("d3", w3, "w3"))
     for runner in ("sync", "async"):
-        fb = {e: (["bound-outer", e] if src[e] == "Bio" else ["bound", e]) for e in exts if src[e] in ("Bi", "Bo", "Bio")}
+        fb = {e: (["bound-outer", e] if src[e] == "Bio" else ["bound", e]) for e in exts if src[e] in ("Bi", "Bo", "Bio", "DBi")}
         fprog = dict(flat, bind=fb) if fb else flat
         ref = observe(fprog, provided, runner)
         acc.evaluations += 1
